@@ -14,6 +14,10 @@
     * `setHeadPos_spec`, `setHeadPos_ok_pos` — the position setter.
     * `keeps_*`, `*_ixs` — look-ups, non-index writes and the evaluation functions (`evalIn`, `evalArgs`, `getEvent`,
       `getEventName`, …) leave the index component, the program and every instance's flow id alone.
+    * token level (last part of the file): `slideStep_simple` — on a simple element (`Prim.simple`) a normal return is
+      `(false, [])` and the only visible change is `Moved`: head `(f, h)` is one edge further, queue / other heads / other
+      instances untouched; `corevm_slide_step_is_machine_step` — hence `absTokens idx s'` is (a permutation of) a
+      `RoundMachine.Step` successor of `absTokens idx s`.
 
   Structure of the file
     1. `Frame` / `Keeps` (definitions in the Models file): combinators (`bind`, `forIn`, `mapM`, `tryCatch`, …) and the
@@ -414,11 +418,11 @@ theorem nameFor_error_pos {s s1 : VM} {f : FUid} {p : Nat} {st : HeadStatus} {c 
 /-! ### `Lands`: where head `k` is after a statement -/
 
 /-- statements that keep the config and the data of head `k` (weaker than `Keeps`: `setFlowStatus` qualifies) -/
-structure Pres {α : Type} (k : Key) (cfg : FlowCfg) (hd : Head) (x : M α) : Prop where
+structure PresHd {α : Type} (k : Key) (cfg : FlowCfg) (hd : Head) (x : M α) : Prop where
   run : ∀ s, cfgOf s.r k.1 = some cfg → headOf s k = some hd →
     cfgOf (resSt (x s)).r k.1 = some cfg ∧ headOf (resSt (x s)) k = some hd
 
-theorem Keeps.pres {α : Type} {x : M α} (h : Keeps x) (k : Key) (cfg : FlowCfg) (hd : Head) : Pres k cfg hd x :=
+theorem Keeps.pres {α : Type} {x : M α} (h : Keeps x) (k : Key) (cfg : FlowCfg) (hd : Head) : PresHd k cfg hd x :=
   ⟨fun s hc hh => ⟨by rw [(h.frame s).cfgOf]; exact hc, by rw [(h.frame s).headOf]; exact hh⟩⟩
 
 theorem Lands.pure {α : Type} {k : Key} {cfg : FlowCfg} {hd : Head} {T : α → Nat → Prop} (a : α) (hT : T a hd.pos) :
@@ -426,7 +430,7 @@ theorem Lands.pure {α : Type} {k : Key} {cfg : FlowCfg} {hd : Head} {T : α →
   ⟨fun _ hc hh => ⟨hc, hd, hh, rfl, hT⟩⟩
 
 theorem Lands.bind_pres {α β : Type} {k : Key} {cfg : FlowCfg} {hd : Head} {T : β → Nat → Prop} {x : M α} {f : α → M β}
-    (hx : Pres k cfg hd x) (hf : ∀ a, Lands k cfg hd T (f a)) : Lands k cfg hd T (EStateM.bind x f) := by
+    (hx : PresHd k cfg hd x) (hf : ∀ a, Lands k cfg hd T (f a)) : Lands k cfg hd T (EStateM.bind x f) := by
   refine ⟨fun s hc hh => ?_⟩
   have h1 := hx.run s hc hh
   unfold EStateM.bind
@@ -593,8 +597,8 @@ theorem Lands.pure_stop {k : Key} {cfg : FlowCfg} {hd : Head} {P : Nat → Prop}
       (EStateM.pure (true, nh)) :=
   Lands.pure _ ⟨fun h => (by cases h), fun _ => rfl⟩
 
-theorem Pres.bind {α β : Type} {k : Key} {cfg : FlowCfg} {hd : Head} {x : M α} {f : α → M β}
-    (hx : Pres k cfg hd x) (hf : ∀ a, Pres k cfg hd (f a)) : Pres k cfg hd (EStateM.bind x f) := by
+theorem PresHd.bind {α β : Type} {k : Key} {cfg : FlowCfg} {hd : Head} {x : M α} {f : α → M β}
+    (hx : PresHd k cfg hd x) (hf : ∀ a, PresHd k cfg hd (f a)) : PresHd k cfg hd (EStateM.bind x f) := by
   refine ⟨fun s hc hh => ?_⟩
   have h1 := hx.run s hc hh
   unfold EStateM.bind
@@ -608,9 +612,9 @@ theorem Pres.bind {α β : Type} {k : Key} {cfg : FlowCfg} {hd : Head} {x : M α
 
 /-- `flow_state.status = STOPPING` (the `Abort` element without a catch label): an index write that leaves every head alone -/
 theorem pres_setFlowStatus_stopping (f : FUid) (h : HUid) (cfg : FlowCfg) (hd : Head) :
-    Pres (f, h) cfg hd (setFlowStatus f .stopping) := by
+    PresHd (f, h) cfg hd (setFlowStatus f .stopping) := by
   unfold setFlowStatus
-  refine Pres.bind ?_ (fun _ => Keeps.pres (by keeps) _ _ _)
+  refine PresHd.bind ?_ (fun _ => Keeps.pres (by keeps) _ _ _)
   refine ⟨fun s hc hh => ?_⟩
   have hg : (Op.setFlowStatus f FlowStatus.stopping).guard s.ixs.ix = true := by
     simp only [Op.guard]
@@ -905,5 +909,535 @@ theorem slideStep_error_pos (fuel : Nat) (f : FUid) (h : HUid) (s s' : VM) (cfg 
 
 /-- the frame facts asked for separately: none of these touches the index component -/
 theorem ixs_of_keeps {α : Type} {x : M α} (hx : Keeps x) (s : VM) : (resSt (x s)).ixs = s.ixs := (hx.frame s).ixs
+
+/-! ## The token level: `slideStep` on a simple element is one `RoundMachine.Step`
+
+  `FrameQ` / `KeepsQ` = `Frame` / `Keeps` plus "the queue of internal events is unchanged"; the calculus and its lemmas are
+  the same as above (everything except `pushEvent`, `pushLeftEvent`). -/
+
+open NemoVerif.RoundMachine
+
+
+theorem FrameQ.refl (s : VM) : FrameQ s s := ⟨rfl, rfl, rfl, rfl⟩
+theorem FrameQ.trans {a b c : VM} (h1 : FrameQ a b) (h2 : FrameQ b c) : FrameQ a c :=
+  ⟨h2.ixs.trans h1.ixs, h2.prog.trans h1.prog, h2.ids.trans h1.ids, h2.queue.trans h1.queue⟩
+
+theorem KeepsQ.pure {α : Type} (a : α) : KeepsQ (EStateM.pure a : M α) := ⟨fun s => FrameQ.refl s⟩
+
+theorem KeepsQ.bind {α β : Type} {x : M α} {f : α → M β} (hx : KeepsQ x) (hf : ∀ a, KeepsQ (f a)) :
+    KeepsQ (EStateM.bind x f) := by
+  refine ⟨fun s => ?_⟩
+  have h1 := hx.frame s
+  unfold EStateM.bind
+  split
+  · rename_i a s1 hxs
+    rw [hxs] at h1
+    exact FrameQ.trans h1 ((hf a).frame s1)
+  · rename_i e s1 hxs
+    rw [hxs] at h1
+    exact h1
+
+theorem KeepsQ.throw {α : Type} (e : VMErr) : KeepsQ (EStateM.throw e : M α) := ⟨fun s => FrameQ.refl s⟩
+theorem KeepsQ.pyRaise {α : Type} (c m : String) : KeepsQ (pyRaise c m : M α) := ⟨fun s => FrameQ.refl s⟩
+theorem KeepsQ.unsupported {α : Type} (w : String) : KeepsQ (unsupported w : M α) := ⟨fun s => FrameQ.refl s⟩
+theorem KeepsQ.get : KeepsQ (EStateM.get : M VM) := ⟨fun s => FrameQ.refl s⟩
+
+theorem KeepsQ.tryCatch {α : Type} {x : M α} {hdl : VMErr → M α} (hx : KeepsQ x) (hh : ∀ e, KeepsQ (hdl e)) :
+    KeepsQ (tryCatch x hdl) := by
+  refine ⟨fun s => ?_⟩
+  have h1 := hx.frame s
+  show FrameQ s (resSt (EStateM.tryCatch x hdl s))
+  unfold EStateM.tryCatch
+  simp only [EStateM.Backtrackable.restore, EStateM.dummyRestore]
+  split
+  · rename_i e s1 hxs
+    rw [hxs] at h1
+    exact FrameQ.trans h1 ((hh e).frame s1)
+  · rename_i hne
+    exact h1
+
+theorem KeepsQ.modifyRest (g : Rest → Rest) (hp : ∀ r, (g r).prog = r.prog) (hi : ∀ r, fxIds (g r).fx = fxIds r.fx)
+    (hq : ∀ r, (g r).queue = r.queue) :
+    KeepsQ (modifyRest g) := by
+  exact ⟨fun s => ⟨rfl, hp s.r, hi s.r, hq s.r⟩⟩
+
+theorem KeepsQ.forIn {β σ : Type} (l : List β) (init : σ) (body : β → σ → M (ForInStep σ))
+    (hb : ∀ a b, KeepsQ (body a b)) : KeepsQ (forIn l init body) := by
+  induction l generalizing init with
+  | nil => exact ⟨fun s => FrameQ.refl s⟩
+  | cons a as ih =>
+    rw [List.forIn_cons]
+    apply KeepsQ.bind (hb a init)
+    intro r
+    cases r with
+    | done b => exact ⟨fun s => FrameQ.refl s⟩
+    | yield b => exact ih b
+
+theorem KeepsQ.mapM {β γ : Type} (g : β → M γ) (l : List β) (hg : ∀ a, KeepsQ (g a)) : KeepsQ (l.mapM g) := by
+  induction l with
+  | nil => exact ⟨fun s => FrameQ.refl s⟩
+  | cons a as ih =>
+    rw [List.mapM_cons]
+    apply KeepsQ.bind (hg a)
+    intro b
+    apply KeepsQ.bind ih
+    intro bs
+    exact ⟨fun s => FrameQ.refl s⟩
+
+
+theorem KeepsQ.modInstX (f : FUid) (g : InstX → InstX) (hg : ∀ x, (g x).flowId = x.flowId) : KeepsQ (modInstX f g) :=
+  KeepsQ.modifyRest _ (fun _ => rfl) (fun r => fxIds_modify f g hg r.fx) (fun _ => rfl)
+
+syntax "keepsq_known" : tactic
+macro_rules | `(tactic| keepsq_known) => `(tactic| fail "no known KeepsQ lemma")
+
+/-- the closing / decomposing steps, at whatever transparency the caller sets -/
+macro "keepsq_core" : tactic => `(tactic| first
+  | keepsq_known
+  | exact KeepsQ.pure _
+  | exact KeepsQ.throw _ | exact KeepsQ.pyRaise _ _ | exact KeepsQ.unsupported _ | exact KeepsQ.get
+  | (apply KeepsQ.modInstX; intro _; rfl)
+  | (apply KeepsQ.modifyRest <;> (intro _; rfl))
+  | apply KeepsQ.tryCatch
+  | apply KeepsQ.forIn
+  | apply KeepsQ.mapM
+  | apply KeepsQ.bind)
+
+macro "keepsq_step" : tactic => `(tactic| first
+  | assumption
+  | with_reducible_and_instances keepsq_core
+  | intro _
+  | split
+  | keepsq_core
+  | apply_assumption
+  | dsimp only)
+macro "keepsq" : tactic => `(tactic| repeat keepsq_step)
+
+theorem keepsq_getRest : KeepsQ getRest := by unfold getRest; keepsq
+macro_rules | `(tactic| keepsq_known) => `(tactic| exact keepsq_getRest)
+theorem keepsq_getIx : KeepsQ getIx := by unfold getIx; keepsq
+macro_rules | `(tactic| keepsq_known) => `(tactic| exact keepsq_getIx)
+theorem keepsq_freshUid : KeepsQ freshUid := by unfold freshUid; keepsq
+macro_rules | `(tactic| keepsq_known) => `(tactic| exact keepsq_freshUid)
+theorem keepsq_getInstX? (f) : KeepsQ (getInstX? f) := by unfold getInstX?; keepsq
+macro_rules | `(tactic| keepsq_known) => `(tactic| exact keepsq_getInstX? _)
+theorem keepsq_getInstX (f) : KeepsQ (getInstX f) := by unfold getInstX; keepsq
+macro_rules | `(tactic| keepsq_known) => `(tactic| exact keepsq_getInstX _)
+theorem keepsq_ctxHolder (f) : KeepsQ (ctxHolder f) := by unfold ctxHolder; keepsq
+macro_rules | `(tactic| keepsq_known) => `(tactic| exact keepsq_ctxHolder _)
+theorem keepsq_getCtx (f) : KeepsQ (getCtx f) := by unfold getCtx; keepsq
+macro_rules | `(tactic| keepsq_known) => `(tactic| exact keepsq_getCtx _)
+theorem keepsq_setCtxVar (f k v) : KeepsQ (setCtxVar f k v) := by unfold setCtxVar; keepsq
+macro_rules | `(tactic| keepsq_known) => `(tactic| exact keepsq_setCtxVar _ _ _)
+theorem keepsq_getAction? (u) : KeepsQ (getAction? u) := by unfold getAction?; keepsq
+macro_rules | `(tactic| keepsq_known) => `(tactic| exact keepsq_getAction? _)
+theorem keepsq_lookupVar (c n) : KeepsQ (lookupVar c n) := by unfold lookupVar; keepsq
+macro_rules | `(tactic| keepsq_known) => `(tactic| exact keepsq_lookupVar _ _)
+
+theorem keepsq_valueErr {α : Type} (m : String) : KeepsQ (valueErr m : M α) := KeepsQ.pyRaise _ _
+macro_rules | `(tactic| keepsq_known) => `(tactic| exact keepsq_valueErr _)
+
+theorem keepsq_attrOf (v a l) : KeepsQ (attrOf v a l) := by unfold attrOf; keepsq
+macro_rules | `(tactic| keepsq_known) => `(tactic| exact keepsq_attrOf _ _ _)
+
+section evalStepQ
+set_option linter.unusedSectionVars false
+variable (n : Nat) (ih1 : ∀ c e, KeepsQ (evalExpr c n e)) (ih2 : ∀ c e, KeepsQ (evalBase c n e)) (c : EvalCtx)
+include ih1 ih2
+theorem keepsq_evalExpr_lit (v) : KeepsQ (evalExpr c (n+1) (.lit v)) := by
+  simp only [evalExpr]; keepsq
+theorem keepsq_evalExpr_interp (v) : KeepsQ (evalExpr c (n+1) (.interp v)) := by
+  simp only [evalExpr]; keepsq
+theorem keepsq_evalExpr_var (v) : KeepsQ (evalExpr c (n+1) (.var v)) := by
+  simp only [evalExpr]; keepsq
+theorem keepsq_evalExpr_name (v) : KeepsQ (evalExpr c (n+1) (.name v)) := by
+  simp only [evalExpr]; keepsq
+theorem keepsq_evalExpr_attr (e a) : KeepsQ (evalExpr c (n+1) (.attr e a)) := by
+  simp only [evalExpr]; keepsq
+theorem keepsq_evalExpr_index (e a) : KeepsQ (evalExpr c (n+1) (.index e a)) := by
+  simp only [evalExpr]; keepsq
+theorem keepsq_evalExpr_not (e) : KeepsQ (evalExpr c (n+1) (.not e)) := by
+  simp only [evalExpr]; keepsq
+theorem keepsq_evalExpr_and (e) : KeepsQ (evalExpr c (n+1) (.and e)) := by
+  simp only [evalExpr]; keepsq
+theorem keepsq_evalExpr_or (e) : KeepsQ (evalExpr c (n+1) (.or e)) := by
+  simp only [evalExpr]; keepsq
+theorem keepsq_evalExpr_cmp (e r) : KeepsQ (evalExpr c (n+1) (.cmp e r)) := by
+  simp only [evalExpr]; keepsq
+theorem keepsq_evalExpr_bin (o a b) : KeepsQ (evalExpr c (n+1) (.bin o a b)) := by
+  simp only [evalExpr]; keepsq
+theorem keepsq_evalExpr_neg (e) : KeepsQ (evalExpr c (n+1) (.neg e)) := by
+  simp only [evalExpr]; keepsq
+theorem keepsq_evalExpr_call (f args) : KeepsQ (evalExpr c (n+1) (.call f args)) := by
+  simp only [evalExpr]; keepsq
+theorem keepsq_evalExpr_list (e) : KeepsQ (evalExpr c (n+1) (.list e)) := by
+  simp only [evalExpr]; keepsq
+theorem keepsq_evalExpr_set (e) : KeepsQ (evalExpr c (n+1) (.set e)) := by
+  simp only [evalExpr]; keepsq
+theorem keepsq_evalExpr_dict (e) : KeepsQ (evalExpr c (n+1) (.dict e)) := by
+  simp only [evalExpr]; keepsq
+theorem keepsq_evalExpr_unsupported (e) : KeepsQ (evalExpr c (n+1) (.unsupported e)) := by
+  simp only [evalExpr]; keepsq
+
+theorem keepsq_evalExpr_succ (e) : KeepsQ (evalExpr c (n+1) e) := by
+  cases e with
+  | lit v => exact keepsq_evalExpr_lit n ih1 ih2 c v
+  | interp parts => exact keepsq_evalExpr_interp n ih1 ih2 c parts
+  | var name => exact keepsq_evalExpr_var n ih1 ih2 c name
+  | name m => exact keepsq_evalExpr_name n ih1 ih2 c m
+  | attr e a => exact keepsq_evalExpr_attr n ih1 ih2 c e a
+  | index e i => exact keepsq_evalExpr_index n ih1 ih2 c e i
+  | not e => exact keepsq_evalExpr_not n ih1 ih2 c e
+  | and es => exact keepsq_evalExpr_and n ih1 ih2 c es
+  | or es => exact keepsq_evalExpr_or n ih1 ih2 c es
+  | cmp e rest => exact keepsq_evalExpr_cmp n ih1 ih2 c e rest
+  | bin op a b => exact keepsq_evalExpr_bin n ih1 ih2 c op a b
+  | neg e => exact keepsq_evalExpr_neg n ih1 ih2 c e
+  | call f args => exact keepsq_evalExpr_call n ih1 ih2 c f args
+  | list es => exact keepsq_evalExpr_list n ih1 ih2 c es
+  | dict kvs => exact keepsq_evalExpr_dict n ih1 ih2 c kvs
+  | set es => exact keepsq_evalExpr_set n ih1 ih2 c es
+  | unsupported why => exact keepsq_evalExpr_unsupported n ih1 ih2 c why
+
+theorem keepsq_evalBase_succ (e) : KeepsQ (evalBase c (n+1) e) := by
+  cases e <;> simp only [evalBase] <;> keepsq
+end evalStepQ
+
+theorem keepsq_evalExpr_aux : ∀ fuel : Nat, (∀ c e, KeepsQ (evalExpr c fuel e)) ∧ (∀ c e, KeepsQ (evalBase c fuel e)) := by
+  intro fuel
+  induction fuel with
+  | zero =>
+    constructor
+    · intro c e; rw [evalExpr.eq_1]; exact KeepsQ.throw _
+    · intro c e; rw [evalBase.eq_1]; exact KeepsQ.throw _
+  | succ n ih =>
+    exact ⟨fun c e => keepsq_evalExpr_succ n ih.1 ih.2 c e, fun c e => keepsq_evalBase_succ n ih.1 ih.2 c e⟩
+
+theorem keepsq_evalExpr (c : EvalCtx) (fuel : Nat) (e : Expr) : KeepsQ (evalExpr c fuel e) := (keepsq_evalExpr_aux fuel).1 c e
+macro_rules | `(tactic| keepsq_known) => `(tactic| exact keepsq_evalExpr _ _ _)
+theorem keepsq_evalBase (c : EvalCtx) (fuel : Nat) (e : Expr) : KeepsQ (evalBase c fuel e) := (keepsq_evalExpr_aux fuel).2 c e
+macro_rules | `(tactic| keepsq_known) => `(tactic| exact keepsq_evalBase _ _ _)
+
+theorem keepsq_evalIn (f : FUid) (e : Expr) : KeepsQ (evalIn f e) := by unfold evalIn; keepsq
+macro_rules | `(tactic| keepsq_known) => `(tactic| exact keepsq_evalIn _ _)
+theorem keepsq_evalEmpty (e : Expr) : KeepsQ (evalEmpty e) := by unfold evalEmpty; keepsq
+macro_rules | `(tactic| keepsq_known) => `(tactic| exact keepsq_evalEmpty _)
+theorem keepsq_evalArgs (f : FUid) (args : List (String × Expr)) : KeepsQ (evalArgs f args) := by unfold evalArgs; keepsq
+macro_rules | `(tactic| keepsq_known) => `(tactic| exact keepsq_evalArgs _ _)
+
+
+
+theorem keepsq_flowObjOf (f : FUid) : KeepsQ (flowObjOf f) := by unfold flowObjOf; keepsq
+macro_rules | `(tactic| keepsq_known) => `(tactic| exact keepsq_flowObjOf _)
+theorem keepsq_flowStartEvent (o : FlowObj) (args) : KeepsQ (flowStartEvent o args) := by unfold flowStartEvent; keepsq
+macro_rules | `(tactic| keepsq_known) => `(tactic| exact keepsq_flowStartEvent _ _)
+theorem keepsq_flowGetEvent (o : FlowObj) (n : String) (args) : KeepsQ (flowGetEvent o n args) := by unfold flowGetEvent; keepsq
+macro_rules | `(tactic| keepsq_known) => `(tactic| exact keepsq_flowGetEvent _ _ _)
+theorem keepsq_actionGetEvent (a : Action) (n : String) (args) : KeepsQ (actionGetEvent a n args) := by
+  unfold actionGetEvent; dsimp only; keepsq
+macro_rules | `(tactic| keepsq_known) => `(tactic| exact keepsq_actionGetEvent _ _ _)
+theorem keepsq_instanceArguments (cfg : FlowCfg) (evArgs) : KeepsQ (instanceArguments cfg evArgs) := by unfold instanceArguments; keepsq
+macro_rules | `(tactic| keepsq_known) => `(tactic| exact keepsq_instanceArguments _ _)
+theorem keepsq_getCfg (id : String) : KeepsQ (getCfg id) := by unfold getCfg; keepsq
+macro_rules | `(tactic| keepsq_known) => `(tactic| exact keepsq_getCfg _)
+theorem keepsq_tempFlowObj (n : String) : KeepsQ (tempFlowObj n) := by unfold tempFlowObj; keepsq
+macro_rules | `(tactic| keepsq_known) => `(tactic| exact keepsq_tempFlowObj _)
+theorem keepsq_tempAction (n : String) (args) : KeepsQ (tempAction n args) := by unfold tempAction; keepsq
+macro_rules | `(tactic| keepsq_known) => `(tactic| exact keepsq_tempAction _ _)
+theorem keepsq_resolveRef (f : FUid) (spec : Spec) (v : String) : KeepsQ (resolveRef f spec v) := by unfold resolveRef; keepsq
+macro_rules | `(tactic| keepsq_known) => `(tactic| exact keepsq_resolveRef _ _ _)
+theorem keepsq_getEventName (f : FUid) (spec : Spec) : KeepsQ (getEventName f spec) := by unfold getEventName; keepsq
+macro_rules | `(tactic| keepsq_known) => `(tactic| exact keepsq_getEventName _ _)
+theorem keepsq_getEvent (f : FUid) (spec : Spec) (isMatch : Bool) : KeepsQ (getEvent f spec isMatch) := by unfold getEvent; keepsq
+macro_rules | `(tactic| keepsq_known) => `(tactic| exact keepsq_getEvent _ _ _)
+
+
+
+theorem keepsq_getInst? (f) : KeepsQ (getInst? f) := by unfold getInst?; keepsq
+macro_rules | `(tactic| keepsq_known) => `(tactic| exact keepsq_getInst? _)
+theorem keepsq_getInst (f) : KeepsQ (getInst f) := by unfold getInst; keepsq
+macro_rules | `(tactic| keepsq_known) => `(tactic| exact keepsq_getInst _)
+theorem keepsq_getHead? (k) : KeepsQ (getHead? k) := by unfold getHead?; keepsq
+macro_rules | `(tactic| keepsq_known) => `(tactic| exact keepsq_getHead? _)
+theorem keepsq_getHeadX (k) : KeepsQ (getHeadX k) := by unfold getHeadX; keepsq
+macro_rules | `(tactic| keepsq_known) => `(tactic| exact keepsq_getHeadX _)
+theorem keepsq_modHeadX (k g) : KeepsQ (modHeadX k g) := by unfold modHeadX; keepsq
+macro_rules | `(tactic| keepsq_known) => `(tactic| exact keepsq_modHeadX _ _)
+theorem keepsq_cfgOfInst (f) : KeepsQ (cfgOfInst f) := by unfold cfgOfInst; keepsq
+macro_rules | `(tactic| keepsq_known) => `(tactic| exact keepsq_cfgOfInst _)
+theorem keepsq_setAction (a) : KeepsQ (setAction a) := by unfold setAction; keepsq
+macro_rules | `(tactic| keepsq_known) => `(tactic| exact keepsq_setAction _)
+theorem keepsq_headScores (k) : KeepsQ (headScores k) := by unfold headScores; keepsq
+macro_rules | `(tactic| keepsq_known) => `(tactic| exact keepsq_headScores _)
+theorem keepsq_labelPos (cfg l) : KeepsQ (labelPos cfg l) := by unfold labelPos; keepsq
+macro_rules | `(tactic| keepsq_known) => `(tactic| exact keepsq_labelPos _ _)
+theorem keepsq_nameFor (f p st) : KeepsQ (nameFor f p st) := by unfold nameFor; keepsq
+macro_rules | `(tactic| keepsq_known) => `(tactic| exact keepsq_nameFor _ _ _)
+
+
+/-! ### the global effect of a simple step -/
+
+
+theorem FrameQ.headOf {s s' : VM} (h : FrameQ s s') (k : Key) : headOf s' k = headOf s k := by
+  unfold CoreVM.headOf; rw [h.ixs]
+
+theorem Moved.of_frameQ {k : Key} {hd : Head} {p : Nat} {s s1 s' : VM} (h1 : FrameQ s s1) (h2 : Moved k hd p s1 s') :
+    Moved k hd p s s' :=
+  ⟨h2.prog.trans h1.prog, h2.ids.trans h1.ids, h2.queue.trans h1.queue, by rw [← h1.ixs]; exact h2.insts⟩
+
+theorem step_setPos_insts (ix : IState) (f : FUid) (h : HUid) (p : Nat) (nm : Option String) (hd : Head)
+    (hh : (findInst ix f).bind (·.findHead h) = some hd) (hne : hd.pos ≠ p) :
+    (step ix (.setPos f h p nm)).insts =
+      ix.insts.map fun i => if i.uid = f then i.modifyHead h (fun x => { x with pos := p, elem := nm }) else i := by
+  cases hi : findInst ix f with
+  | none => rw [hi] at hh; cases hh
+  | some i =>
+    rw [hi] at hh
+    simp only [Option.bind] at hh
+    simp only [step, hi, Option.bind, hh, hne, if_false]
+    rw [touchHead_found _ hi hh, insts_headChanged]
+    rfl
+
+/-- **`head.position = p`, normal return, globally**: nothing but the position / ghost `elem` of head `k` changes -/
+theorem setHeadPos_ok_moved {k : Key} {p : Nat} {s s' : VM} {hd : Head}
+    (hh : headOf s k = some hd) (hrun : setHeadPos k p s = .ok () s') : Moved k hd p s s' := by
+  unfold setHeadPos at hrun
+  simp only [bind, EStateM.bind, getHead?_run, hh] at hrun
+  by_cases hp : hd.pos = p
+  · rw [if_pos hp] at hrun
+    cases hrun
+    exact ⟨rfl, rfl, rfl, Or.inl ⟨rfl, hp⟩⟩
+  · rw [if_neg hp] at hrun
+    simp only [EStateM.bind, attemptPy_run] at hrun
+    have hfr := (keepsq_nameFor k.1 p hd.status).frame s
+    cases hn : nameFor k.1 p hd.status s with
+    | ok nm s1 =>
+      rw [hn] at hfr hrun
+      change FrameQ s s1 at hfr
+      simp only at hrun
+      have hh1 : headOf s1 k = some hd := by rw [hfr.headOf]; exact hh
+      have hg : (Op.setPos k.1 k.2 p nm).guard s1.ixs.ix = true := by
+        unfold headOf at hh1
+        simp only [Op.guard, hh1, Option.isSome]
+      obtain ⟨s2, h2, hix, hr⟩ := applyOp_ok _ s1 hg
+      rw [h2] at hrun
+      cases hrun
+      refine Moved.of_frameQ hfr ⟨by rw [hr], by rw [hr], by rw [hr], Or.inr ⟨nm, ?_⟩⟩
+      rw [hix]
+      exact step_setPos_insts _ _ _ _ _ _ hh1 hp
+    | error e s1 =>
+      rw [hn] at hrun
+      cases e with
+      | py c m =>
+        simp only at hrun
+        obtain ⟨_, s2, _, h3⟩ := bind_ok hrun
+        cases h3
+      | _ => cases hrun
+
+theorem SimpleMove.bind_keepsq {α : Type} {k : Key} {hd : Head} {P : Nat → Prop} {x : M α} {f : α → M (Bool × List Key)}
+    (hx : KeepsQ x) (hf : ∀ a, SimpleMove k hd P (f a)) : SimpleMove k hd P (EStateM.bind x f) := by
+  refine ⟨fun s b s' hh h => ?_⟩
+  obtain ⟨a, s1, h1, h2⟩ := bind_ok h
+  have hfr := hx.frame s
+  rw [h1] at hfr
+  change FrameQ s s1 at hfr
+  obtain ⟨hb, p, hp, hm⟩ := (hf a).run s1 b s' (by rw [hfr.headOf]; exact hh) h2
+  exact ⟨hb, p, hp, Moved.of_frameQ hfr hm⟩
+
+theorem SimpleMove.setHeadPos_pure {k : Key} {hd : Head} {P : Nat → Prop} (p : Nat) (hP : P p) :
+    SimpleMove k hd P (EStateM.bind (setHeadPos k p) fun _ => EStateM.pure (false, [])) := by
+  refine ⟨fun s b s' hh h => ?_⟩
+  obtain ⟨_, s1, h1, h2⟩ := bind_ok h
+  cases h2
+  exact ⟨rfl, p, hP, setHeadPos_ok_moved hh h1⟩
+
+theorem SimpleMove.bind_labelPos {k : Key} {hd : Head} {P : Nat → Prop} {c : FlowCfg} {l : String}
+    {f : Nat → M (Bool × List Key)} (hf : ∀ t, c.label l = some t → SimpleMove k hd P (f t)) :
+    SimpleMove k hd P (EStateM.bind (labelPos c l) f) := by
+  refine ⟨fun s b s' hh h => ?_⟩
+  unfold labelPos EStateM.bind at h
+  cases hl : c.label l with
+  | none => rw [hl] at h; cases h
+  | some t => rw [hl] at h; exact (hf t hl).run s b s' hh h
+
+theorem SimpleMove.bind_pyRaise {α : Type} {k : Key} {hd : Head} {P : Nat → Prop} (c m : String)
+    (f : α → M (Bool × List Key)) : SimpleMove k hd P (EStateM.bind (pyRaise c m) f) :=
+  ⟨fun _ _ _ _ h => by cases h⟩
+
+macro "simple_side" : tactic => `(tactic| (simp only [SlideGraph.Edge]; simp [*]; done))
+
+macro "simple_step" : tactic => `(tactic| first
+  | (with_reducible_and_instances refine SimpleMove.setHeadPos_pure _ ?_; try simple_side)
+  | (with_reducible_and_instances refine SimpleMove.bind_labelPos ?_; intro _ _)
+  | with_reducible_and_instances exact SimpleMove.bind_pyRaise _ _ _
+  | (with_reducible_and_instances refine SimpleMove.bind_keepsq (by keepsq) ?_)
+  | intro _
+  | split
+  | dsimp only)
+macro "simple_move" : tactic => `(tactic| repeat (any_goals simple_step))
+
+set_option maxHeartbeats 1000000 in
+/-- **One iteration of `slide` on a simple element**: whenever it returns normally the loop goes on, no head was created,
+    and the only change the token abstraction can see is the move of head `(f, h)` along an edge of the sliding graph. -/
+theorem slideStep_simple (fuel : Nat) (f : FUid) (h : HUid) (cfg : FlowCfg) (hd : Head) (s s' : VM) (b : Bool × List Key)
+    (hc : cfgOf s.r f = some cfg) (hh : headOf s (f, h) = some hd)
+    (hlt : hd.pos < cfg.elements.size) (hact : hd.status ≠ .inactive)
+    (hk : (cfg.elements[hd.pos]!).simple = true)
+    (hrun : slideStep fuel f h s = .ok b s') :
+    b = (false, []) ∧ ∃ p, SlideGraph.Edge (classify cfg) hd.pos p ∧ Moved (f, h) hd p s s' := by
+  revert hrun
+  unfold slideStep
+  simp only [bind, EStateM.bind, cfgOfInst_of_cfgOf hc]
+  simp only [getHead?_run, hh, pure]
+  have hnot : ¬ (decide (hd.pos ≥ cfg.elements.size) || decide (hd.status = HeadStatus.inactive)) = true := by
+    simp only [ge_iff_le, Bool.or_eq_true, decide_eq_true_eq, not_or, Nat.not_le]
+    exact ⟨hlt, hact⟩
+  rw [if_neg hnot]
+  have hs := succs_classify cfg hd.pos hlt
+  generalize heq : cfg.elements[hd.pos]! = el at hs hk ⊢
+  cases el
+  all_goals (first | (cases hk; done) | skip)
+  all_goals (simp only [classifyPrim] at hs; dsimp only)
+  case goto =>
+    rename_i e l
+    cases hl : cfg.label l <;> simp only [hl] at hs <;> refine SimpleMove.run ?_ s b s' hh <;> simple_move
+  case label =>
+    rename_i name
+    have hne : ¬ name = "start_new_flow_instance" := by simpa [Prim.simple] using hk
+    rw [if_neg hne] at hs ⊢
+    refine SimpleMove.run ?_ s b s' hh
+    simple_move
+  all_goals (refine SimpleMove.run ?_ s b s' hh; simple_move)
+
+
+
+/-! ### replacing the one element with a given key -/
+
+theorem map_update_id {α : Type} (key : α → String) (f : String) (g : α → α) (l : List α)
+    (h : ∀ a ∈ l, key a ≠ f) : l.map (fun a => if key a = f then g a else a) = l := by
+  induction l with
+  | nil => rfl
+  | cons a rest ih =>
+    simp only [List.map_cons]
+    rw [if_neg (h a (List.mem_cons_self ..)), ih (fun b hb => h b (List.mem_cons_of_mem _ hb))]
+
+theorem map_update_split {α : Type} (key : α → String) (f : String) (l : List α) (x : α)
+    (hnd : (l.map key).Nodup) (hf : l.find? (fun a => decide (key a = f)) = some x) :
+    ∃ l1 l2, l = l1 ++ x :: l2 ∧ ∀ g : α → α, l.map (fun a => if key a = f then g a else a) = l1 ++ g x :: l2 := by
+  induction l with
+  | nil => cases hf
+  | cons a rest ih =>
+    simp only [List.map_cons, List.nodup_cons] at hnd
+    by_cases ha : key a = f
+    · have : a = x := by simpa [List.find?, ha] using hf
+      subst this
+      refine ⟨[], rest, rfl, fun g => ?_⟩
+      have hrest : ∀ b ∈ rest, key b ≠ f := by
+        intro b hb hbf
+        exact hnd.1 (List.mem_map.mpr ⟨b, hb, hbf.trans ha.symm⟩)
+      simp only [List.map_cons, if_pos ha, List.nil_append]
+      rw [map_update_id key f g rest hrest]
+    · have hf' : rest.find? (fun a => decide (key a = f)) = some x := by simpa [List.find?, ha] using hf
+      obtain ⟨l1, l2, h1, h2⟩ := ih hnd.2 hf'
+      refine ⟨a :: l1, l2, by rw [h1]; rfl, fun g => ?_⟩
+      simp only [List.map_cons, if_neg ha, List.cons_append]
+      rw [h2 g]
+
+
+
+theorem classifyPrim_simple (cfg : FlowCfg) (el : Prim) (h : el.simple = true) : plainElem (classifyPrim cfg el) = true := by
+  cases el <;> simp only [Prim.simple] at h <;> try (simp only [classifyPrim, plainElem]; done)
+  case label name =>
+    have hne : ¬ name = "start_new_flow_instance" := by simpa using h
+    simp only [classifyPrim, if_neg hne, plainElem]
+  case catchFail l => cases l <;> simp only [classifyPrim, plainElem]
+  all_goals cases h
+
+theorem headOutcomes_plain (P : RProg) (fl : RFlow) (f u v : Nat) (b : Bool) (e : SlideGraph.Elem)
+    (hP : P[f]? = some fl) (he : fl.ctl[u]? = some e) (hpl : plainElem e = true) (hv : v ∈ SlideGraph.succs fl.ctl u) :
+    (fl.emit.getD u []).map Token.ev ++ [Token.head f v b] ∈ headOutcomes P f u b false := by
+  unfold headOutcomes
+  rw [hP]
+  simp only
+  apply List.mem_append_right
+  rw [he]
+  cases e <;> simp only [plainElem] at hpl <;> first | (cases hpl; done) | exact List.mem_map.mpr ⟨v, hv, rfl⟩
+
+
+
+theorem instTokens_split (idx : String → Option Nat) (ids : List (FUid × String)) (i : Inst) (n : Nat)
+    (H1 H2 : List Head) (x : Head)
+    (hl : i.status.listening = true) (hn : (OMap.lookup i.uid ids).bind idx = some n) (hh : i.heads = H1 ++ x :: H2)
+    (hx : x.status ≠ .inactive) :
+    instTokens idx ids i =
+      H1.filterMap (headToken n (decide (i.status = .started))) ++
+        Token.head n x.pos (decide (i.status = .started)) :: H2.filterMap (headToken n (decide (i.status = .started))) := by
+  unfold instTokens
+  rw [if_pos hl, hn, hh]
+  simp only [List.filterMap_append, List.filterMap_cons, headToken, if_pos hx]
+
+/-- **Token level.**  A normally returning `slideStep` on a simple element (no event pushed, no head created) is one step
+    of the `RoundMachine`: the token of head `(f, h)` is replaced by the token of the same head one edge further; all
+    other tokens (queued events, other heads) are untouched.  `P` is any `RProg` whose flow number `n = idx (flow id)`
+    has the control skeleton `classify cfg` and pushes nothing at this element. -/
+theorem corevm_slide_step_is_machine_step (idx : String → Option Nat) (P : RProg) (fl : RFlow) (n : Nat)
+    (fuel : Nat) (f : FUid) (h : HUid) (cfg : FlowCfg) (hd : Head) (i : Inst) (s s' : VM) (b : Bool × List Key)
+    (hcfg : cfgOfInst f s = .ok cfg s)
+    (hi : findInst s.ixs.ix f = some i) (hhd : i.findHead h = some hd)
+    (hlt : hd.pos < cfg.elements.size) (hact : hd.status ≠ .inactive)
+    (hk : (cfg.elements[hd.pos]!).simple = true)
+    (hlisten : i.status.listening = true)
+    (hidx : (OMap.lookup f (fxIds s.r.fx)).bind idx = some n)
+    (hP : P[n]? = some fl) (hctl : fl.ctl = classify cfg) (hemit : fl.emit.getD hd.pos [] = [])
+    (hrun : slideStep fuel f h s = .ok b s') :
+    b = (false, []) ∧ ∃ T', Step P (absTokens idx s) T' ∧ (absTokens idx s').Perm T' := by
+  have hc := cfgOf_of_cfgOfInst hcfg
+  have hh : headOf s (f, h) = some hd := by unfold headOf; rw [hi]; exact hhd
+  obtain ⟨hb, p, hedge, hm⟩ := slideStep_simple fuel f h cfg hd s s' b hc hh hlt hact hk hrun
+  refine ⟨hb, ?_⟩
+  have huid : i.uid = f := findInst_uid hi
+  have hu := (indexOK_of_vm s).uids
+  -- the instance list and the head list around the one head
+  obtain ⟨I1, I2, hI, hI'⟩ := map_update_split Inst.uid f s.ixs.ix.insts i hu.1 hi
+  have himem : i ∈ s.ixs.ix.insts := by rw [hI]; simp
+  obtain ⟨H1, H2, hH, hH'⟩ := map_update_split Head.uid h i.heads hd (hu.2 i himem) hhd
+  let bb : Bool := decide (i.status = .started)
+  let tk := instTokens idx (fxIds s.r.fx)
+  let ht := headToken n bb
+  have hidx' : (OMap.lookup i.uid (fxIds s.r.fx)).bind idx = some n := by rw [huid]; exact hidx
+  -- the outcome of the machine
+  have hout : [Token.head n p bb] ∈ tokOutcomes P (Token.head n hd.pos bb) := by
+    have he : fl.ctl[hd.pos]? = some (classifyPrim cfg cfg.elements[hd.pos]!) := by rw [hctl]; exact classify_get cfg hd.pos hlt
+    have := headOutcomes_plain P fl n hd.pos p bb _ hP he (classifyPrim_simple cfg _ hk) (by rw [hctl]; exact hedge)
+    rw [hemit] at this
+    exact this
+  let T1 := s.r.queue.map (fun e => Token.ev (evKindOf idx e)) ++ I1.flatMap tk ++ H1.filterMap ht
+  let T2 := H2.filterMap ht ++ I2.flatMap tk
+  have hT : absTokens idx s = T1 ++ Token.head n hd.pos bb :: T2 := by
+    unfold absTokens
+    rw [hI]
+    simp only [List.flatMap_append, List.flatMap_cons]
+    rw [instTokens_split idx (fxIds s.r.fx) i n H1 H2 hd hlisten hidx' hH hact]
+    simp only [T1, T2, tk, ht, bb, List.append_assoc, List.cons_append]
+  refine ⟨T1 ++ [Token.head n p bb] ++ T2, ⟨T1, _, T2, _, hT, hout, rfl⟩, ?_⟩
+  have hT' : absTokens idx s' = T1 ++ [Token.head n p bb] ++ T2 := by
+    cases hm.insts with
+    | inl hsame =>
+      unfold absTokens at hT ⊢
+      rw [hm.queue, hm.ids, hsame.1, hT, ← hsame.2]
+      simp only [List.append_assoc, List.cons_append, List.nil_append]
+    | inr hmov =>
+      obtain ⟨nm, hins⟩ := hmov
+      have hins' : s'.ixs.ix.insts = I1 ++ i.modifyHead h (fun x => { x with pos := p, elem := nm }) :: I2 := by
+        rw [hins]; exact hI' _
+      have hheads : (i.modifyHead h (fun x => { x with pos := p, elem := nm })).heads =
+          H1 ++ { hd with pos := p, elem := nm } :: H2 := hH' _
+      unfold absTokens
+      rw [hm.queue, hm.ids, hins']
+      simp only [List.flatMap_append, List.flatMap_cons]
+      rw [instTokens_split idx (fxIds s.r.fx) (i.modifyHead h _) n H1 H2 { hd with pos := p, elem := nm } hlisten hidx' hheads hact]
+      simp only [T1, T2, tk, ht, bb, Inst.modifyHead, List.append_assoc, List.cons_append, List.nil_append]
+  rw [hT']
+
 
 end NemoVerif.CoreVM
